@@ -1,8 +1,447 @@
-//! C08 observations (see props/c08.py for the consumer).
-#![allow(unused_imports, dead_code)]
+//! C08 observations (consumer: props/c08.py).
+//!   eff   efficiencies_from_counts on rate triples (zeros, ordered/unordered, huge/tiny, NaN/inf)
+//!   pw    coincidence vs signal-singles vs idler-singles intensity at frequency pairs of random phase-matched setups
+//!         (crystal x type x poling x collinear/non-collinear x waists 20-300 um x length 0.5-20 mm), Simpson{200} or GL{40}
+//!   lim   the no-diffraction limit (collinear, waists >= 1 mm) at perfect phase matching, with everything the property's
+//!         closed form eta F^2 / R needs
+//!   grid  SPDC::efficiencies over a small grid
 use crate::common::*;
-use serde_json::json;
+use serde_json::{json, Value};
+use spdcalc::dim::ucum::{M, RAD, S};
+use spdcalc::jsa::FrequencySpace;
+use spdcalc::math::Integrator;
+use spdcalc::utils::vacuum_wavelength_to_frequency;
+use spdcalc::*;
+#[path = "c08_diag.rs"]
+mod c08_diag;
 
-pub fn run(_args: &[String]) {
-  emit(json!({"kind": "not_implemented", "property": "C08"}));
+fn hz(x: Frequency) -> f64 {
+  *(x / (RAD / S))
+}
+fn w(x: f64) -> Frequency {
+  x * RAD / S
+}
+
+struct Family {
+  name: &'static str,
+  kind: &'static str,
+  pm: &'static str,
+  theta: &'static str, // "90" | "\"auto\""
+  poled: bool,
+  lp_nm: f64,
+}
+
+const FAMILIES: &[Family] = &[
+  Family { name: "KTP_t2_pp", kind: "KTP", pm: "e->eo", theta: "90", poled: true, lp_nm: 775. },
+  Family { name: "KTP_t2_pp_405", kind: "KTP", pm: "e->eo", theta: "90", poled: true, lp_nm: 405. },
+  Family { name: "KTP_t0_pp", kind: "KTP", pm: "e->ee", theta: "90", poled: true, lp_nm: 775. },
+  Family { name: "BBO_t1", kind: "BBO_1", pm: "e->oo", theta: "\"auto\"", poled: false, lp_nm: 405. },
+  Family { name: "BBO_t1_532", kind: "BBO_1", pm: "e->oo", theta: "\"auto\"", poled: false, lp_nm: 532. },
+  Family { name: "BBO_t2", kind: "BBO_1", pm: "e->eo", theta: "\"auto\"", poled: false, lp_nm: 405. },
+  Family { name: "LN_t0_pp", kind: "LiNbO3_1", pm: "e->ee", theta: "90", poled: true, lp_nm: 775. },
+  Family { name: "LNMgO_t0_pp", kind: "LiNb_MgO", pm: "e->ee", theta: "90", poled: true, lp_nm: 775. },
+  Family { name: "LN_t1", kind: "LiNbO3_1", pm: "e->oo", theta: "\"auto\"", poled: false, lp_nm: 775. },
+  Family { name: "KDP_t1", kind: "KDP_1", pm: "e->oo", theta: "\"auto\"", poled: false, lp_nm: 405. },
+  Family { name: "LiIO3_t1", kind: "LiIO3_1", pm: "e->oo", theta: "\"auto\"", poled: false, lp_nm: 532. },
+  Family { name: "BBO_t1_pp", kind: "BBO_1", pm: "e->oo", theta: "30", poled: true, lp_nm: 405. },
+];
+
+struct Params {
+  len_um: f64,
+  wp_um: f64,
+  ws_um: f64,
+  wi_um: f64,
+  bw_nm: f64,
+  th_s_ext: f64,
+  ls_nm: f64,
+}
+
+fn config(f: &Family, p: &Params) -> String {
+  let pp = if f.poled { r#""periodic_poling":{"poling_period_um":"auto"},"# } else { "" };
+  format!(
+    r#"{{"crystal":{{"kind":"{}","pm_type":"{}","phi_deg":0,"theta_deg":{},"length_um":{},"temperature_c":20}},
+        "pump":{{"wavelength_nm":{},"waist_um":{},"bandwidth_nm":{},"average_power_mw":1,"spectrum_threshold":0.01}},
+        "signal":{{"wavelength_nm":{},"phi_deg":0,"theta_external_deg":{},"waist_um":{},"waist_position_um":"auto"}},
+        "idler":"auto",{}"deff_pm_per_volt":1}}"#,
+    f.kind, f.pm, f.theta, p.len_um, f.lp_nm, p.wp_um, p.bw_nm, p.ls_nm, p.th_s_ext, p.ws_um, pp
+  )
+}
+
+fn build(f: &Family, p: &Params) -> Result<SPDC, String> {
+  let j = config(f, p);
+  let wi = p.wi_um;
+  match guarded(move || -> Result<SPDC, String> {
+    let mut s = SPDC::from_json(j).map_err(|e| e.to_string())?;
+    s.idler.set_waist(wi * 1e-6 * M);
+    s.assign_optimal_waist_positions();
+    Ok(s)
+  }) {
+    Ok(r) => r,
+    Err(p) => Err(format!("panic: {}", p)),
+  }
+}
+
+fn span_of(spdc: &SPDC) -> f64 {
+  let lp = spdc.pump.vacuum_wavelength();
+  let f = spdc.pump_bandwidth;
+  hz(vacuum_wavelength_to_frequency(lp - 0.5 * f) - vacuum_wavelength_to_frequency(lp + 0.5 * f))
+}
+
+/// |Δk_z| L / 2 at the centre frequencies: the setup counts as phase matched when this is small
+fn mismatch(spdc: &SPDC) -> f64 {
+  let dk = spdc.delta_k(spdc.signal.frequency(), spdc.idler.frequency());
+  let dkz = (*(dk / (RAD / M))).z;
+  (dkz * spdc.crystal_setup.length.value_unsafe * 0.5).abs()
+}
+
+fn describe(f: &Family, p: &Params, spdc: &SPDC) -> Value {
+  json!({"family": f.name, "crystal": f.kind, "pm_type": f.pm, "poled": f.poled, "pump_nm": f.lp_nm, "signal_nm": p.ls_nm,
+    "length_um": p.len_um, "pump_waist_um": p.wp_um, "signal_waist_um": p.ws_um, "idler_waist_um": p.wi_um,
+    "bandwidth_nm": p.bw_nm, "signal_theta_external_deg": p.th_s_ext,
+    "crystal_theta_deg": *(spdc.crystal_setup.theta / spdcalc::dim::ucum::DEG),
+    "config": config(f, p)})
+}
+
+fn integ_json(i: &Integrator) -> Value {
+  match i {
+    Integrator::Simpson { divs } => json!({"method": "Simpson", "divs": divs}),
+    Integrator::GaussLegendre { degree } => json!({"method": "GaussLegendre", "degree": degree}),
+    _ => json!("other"),
+  }
+}
+
+fn triple(spdc: &SPDC, js: &JointSpectrum, jsw: &JointSpectrum, os: f64, oi: f64) -> Result<(f64, f64, f64, f64), String> {
+  let (a, b) = (js.clone(), jsw.clone());
+  let sp = spdc.clone();
+  guarded(move || {
+    (
+      *(a.jsi(w(os), w(oi)) / JSIUnits::new(1.)),
+      *(a.jsi_singles(w(os), w(oi)) / JSIUnits::new(1.)),
+      *(b.jsi_singles(w(oi), w(os)) / JSIUnits::new(1.)),
+      pump_spectral_amplitude(w(os) + w(oi), &sp),
+    )
+  })
+}
+
+/// with VERIF_C08_DIAG=1: singles(variant 3)/singles(source form) for the signal and the idler singles integral
+fn diag_ratios(spdc: &SPDC, os: f64, oi: f64, integ: Integrator) -> Value {
+  if std::env::var("VERIF_C08_DIAG").is_err() {
+    return Value::Null;
+  }
+  let sw = spdc.clone().with_swapped_signal_idler();
+  let v = |variant: u8, sp: &SPDC, a: f64, b: f64| -> f64 {
+    let sp = sp.clone();
+    guarded(move || *(c08_diag::singles_variant(variant, w(a), w(b), &sp, integ) / spdcalc::PerMeter3::new(1.))).unwrap_or(f64::NAN)
+  };
+  json!([v(3, spdc, os, oi) / v(0, spdc, os, oi), v(3, &sw, oi, os) / v(0, &sw, oi, os)])
+}
+
+fn pointwise(rng: &mut Rng, nsetups: usize, npts: usize) {
+  for k in 0..nsetups {
+    let f = &FAMILIES[k % FAMILIES.len()];
+    let collinear = rng.unit() < 0.4;
+    let ls = if rng.unit() < 0.6 { 2.0 * f.lp_nm } else { 2.0 * f.lp_nm * rng.range(0.93, 1.07) };
+    let p = Params {
+      len_um: rng.log_range(500., 20000.),
+      wp_um: rng.log_range(20., 300.),
+      ws_um: rng.log_range(20., 300.),
+      wi_um: rng.log_range(20., 300.),
+      bw_nm: rng.log_range(0.2, 8.0),
+      th_s_ext: if collinear { 0.0 } else { rng.range(0.2, 3.0) },
+      ls_nm: ls,
+    };
+    let integ = if rng.coin() { Integrator::Simpson { divs: 200 } } else { Integrator::GaussLegendre { degree: 40 } };
+    let spdc = match build(f, &p) {
+      Ok(s) => s,
+      Err(e) => {
+        emit(json!({"kind":"pw_setup_fail","family":f.name,"error":e,"config":config(f, &p)}));
+        continue;
+      }
+    };
+    let sp = spdc.clone();
+    let mm = guarded(move || mismatch(&sp)).unwrap_or(f64::NAN);
+    if !(mm < 0.05) {
+      emit(json!({"kind":"pw_not_phase_matched","family":f.name,"mismatch":fx(mm),"setup":describe(f, &p, &spdc)}));
+      continue;
+    }
+    let (sp1, sp2) = (spdc.clone(), spdc.clone());
+    let js = match guarded(move || (JointSpectrum::new(sp1, integ), JointSpectrum::new(sp2.with_swapped_signal_idler(), integ))) {
+      Ok(v) => v,
+      Err(e) => {
+        emit(json!({"kind":"pw_setup_fail","family":f.name,"error":e,"config":config(f, &p)}));
+        continue;
+      }
+    };
+    let (s0, i0) = (hz(spdc.signal.frequency()), hz(spdc.idler.frequency()));
+    let span = span_of(&spdc);
+    // frequency pairs: the centre; along the anti-diagonal (sum fixed, where the phase-matching function is scanned:
+    // the lobe width scales with 1/L, so offsets are taken relative to a few lobe widths); random pairs inside the pump envelope
+    let mut pts: Vec<(String, f64, f64)> = vec![("centre".into(), s0, i0)];
+    let lobe = 2.0 * 2.78 / (p.len_um * 1e-6) * 3e8 / 0.05; // rough frequency scale of one sinc lobe for ~5% group-index mismatch
+    for _ in 0..npts {
+      let d = lobe * rng.range(-1.5, 1.5);
+      pts.push(("antidiag".into(), s0 + d, i0 - d));
+      pts.push(("rand".into(), s0 + span * rng.range(-0.9, 0.9) + d * 0.5, i0 + span * rng.range(-0.9, 0.9) - d * 0.5));
+    }
+    for (tag, os, oi) in pts {
+      match triple(&spdc, &js.0, &js.1, os, oi) {
+        Ok((c, ss, si, alpha)) => emit(json!({"kind":"pw","diag": diag_ratios(&spdc, os, oi, integ),"tag":tag,"integrator":integ_json(&integ),"ws":fx(os),"wi":fx(oi),
+          "wp":fx(hz(spdc.pump.frequency())),"alpha":fx(alpha),"jsi":fx(c),"singles_s":fx(ss),"singles_i":fx(si),"mismatch":fx(mm),
+          "setup":describe(f, &p, &spdc)})),
+        Err(e) => emit(json!({"kind":"pw_panic","tag":tag,"ws":fx(os),"wi":fx(oi),"panic":e,"setup":describe(f, &p, &spdc)})),
+      }
+    }
+  }
+}
+
+fn limit(rng: &mut Rng, nsetups: usize) {
+  for k in 0..nsetups {
+    let f = &FAMILIES[k % FAMILIES.len()];
+    let p = Params {
+      len_um: rng.log_range(500., 20000.),
+      wp_um: rng.log_range(1000., 3000.),
+      ws_um: rng.log_range(1000., 3000.),
+      wi_um: rng.log_range(1000., 3000.),
+      bw_nm: rng.log_range(0.2, 8.0),
+      th_s_ext: 0.0,
+      ls_nm: 2.0 * f.lp_nm,
+    };
+    let integ = if k % 2 == 0 { Integrator::Simpson { divs: 200 } } else { Integrator::GaussLegendre { degree: 40 } };
+    let spdc = match build(f, &p) {
+      Ok(s) => s,
+      Err(e) => {
+        emit(json!({"kind":"lim_setup_fail","family":f.name,"error":e,"config":config(f, &p)}));
+        continue;
+      }
+    };
+    let sp = spdc.clone();
+    let r = guarded(move || {
+      let mm = mismatch(&sp);
+      let js = JointSpectrum::new(sp.clone(), integ);
+      let jsw = JointSpectrum::new(sp.clone().with_swapped_signal_idler(), integ);
+      let (os, oi) = (sp.signal.frequency(), sp.idler.frequency());
+      let rho = *(sp.pump.walkoff_angle(&sp.crystal_setup) / RAD);
+      (
+        mm,
+        *(js.jsi(os, oi) / JSIUnits::new(1.)),
+        *(js.jsi_singles(os, oi) / JSIUnits::new(1.)),
+        *(jsw.jsi_singles(oi, os) / JSIUnits::new(1.)),
+        rho,
+        *(sp.signal.theta_internal() / RAD),
+        *(sp.idler.theta_internal() / RAD),
+        *(sp.idler.theta_external(&sp.crystal_setup) / RAD),
+      )
+    });
+    match r {
+      Ok((mm, c, ss, si, rho, ths, thi, thie)) => emit(json!({"kind":"lim","integrator":integ_json(&integ),"mismatch":fx(mm),
+        "jsi":fx(c),"singles_s":fx(ss),"singles_i":fx(si),"rho":fx(rho),"theta_s":fx(ths),"theta_i":fx(thi),"theta_i_e":fx(thie),
+        "wp":fx(spdc.pump.waist().x.value_unsafe),"ws":fx(spdc.signal.waist().x.value_unsafe),"wi":fx(spdc.idler.waist().x.value_unsafe),
+        "len":fx(spdc.crystal_setup.length.value_unsafe),"setup":describe(f, &p, &spdc)})),
+      Err(e) => emit(json!({"kind":"lim_panic","panic":e,"setup":describe(f, &p, &spdc)})),
+    }
+  }
+}
+
+fn eff_cases(rng: &mut Rng, n: usize) {
+  let mut cases: Vec<(f64, f64, f64)> = vec![
+    (0., 0., 0.), (1., 0., 0.), (1., 2., 0.), (1., 0., 2.), (0., 2., 3.), (3., 4., 5.), (5., 5., 5.), (7., 4., 5.),
+    (-0., 0., -0.), (1., -0., 3.), (1., 3., -0.), (f64::NAN, 0., 0.), (f64::INFINITY, 0., 1.), (1., 0., f64::INFINITY),
+    (1., f64::INFINITY, 2.), (f64::NAN, 1., 2.), (1., f64::NAN, 2.), (1., 2., f64::NAN), (1., 0., f64::NAN), (1., f64::NAN, 0.),
+    (f64::INFINITY, f64::INFINITY, f64::INFINITY), (1e300, 1e300, 1e300), (1e-300, 1e-300, 1e-300), (1e-170, 1e-160, 1e-165),
+    (1e160, 1e170, 1e165), (5e-324, 5e-324, 5e-324), (1., 5e-324, 1.),
+  ];
+  for _ in 0..n {
+    let rs = rng.log_range(1e-12, 1e12);
+    let ri = rs * rng.log_range(1e-3, 1e3);
+    let c = if rng.unit() < 0.7 { rs.min(ri) * rng.unit() } else { rng.log_range(1e-12, 1e12) };
+    cases.push((c, rs, ri));
+    if rng.unit() < 0.15 {
+      cases.push((c, 0.0, ri));
+      cases.push((c, rs, 0.0));
+    }
+  }
+  for (c, rs, ri) in cases {
+    let r = guarded(move || efficiencies_from_counts(c * spdcalc::dim::ucum::HZ, rs * spdcalc::dim::ucum::HZ, ri * spdcalc::dim::ucum::HZ));
+    match r {
+      Ok(e) => emit(json!({"kind":"eff","c":fx(c),"rs":fx(rs),"ri":fx(ri),"symmetric":fx(e.symmetric),"signal":fx(e.signal),"idler":fx(e.idler),
+        "oc":fx(e.coincidences.value_unsafe),"ors":fx(e.signal_singles.value_unsafe),"ori":fx(e.idler_singles.value_unsafe)})),
+      Err(p) => emit(json!({"kind":"eff_panic","c":fx(c),"rs":fx(rs),"ri":fx(ri),"panic":p})),
+    }
+  }
+}
+
+fn grids(rng: &mut Rng, nsetups: usize, res: usize) {
+  for k in 0..nsetups {
+    let f = &FAMILIES[(k * 5 + 1) % FAMILIES.len()];
+    let p = Params {
+      len_um: rng.log_range(500., 20000.),
+      wp_um: rng.log_range(20., 300.),
+      ws_um: rng.log_range(20., 300.),
+      wi_um: rng.log_range(20., 300.),
+      bw_nm: rng.log_range(0.2, 8.0),
+      th_s_ext: if rng.coin() { 0.0 } else { rng.range(0.2, 3.0) },
+      ls_nm: 2.0 * f.lp_nm,
+    };
+    let integ = if k % 2 == 0 { Integrator::Simpson { divs: 200 } } else { Integrator::GaussLegendre { degree: 40 } };
+    let spdc = match build(f, &p) {
+      Ok(s) => s,
+      Err(_) => continue,
+    };
+    let sp = spdc.clone();
+    let r = guarded(move || {
+      let mm = mismatch(&sp);
+      let span = span_of(&sp);
+      let (s0, i0) = (hz(sp.signal.frequency()), hz(sp.idler.frequency()));
+      let d = 0.8 * span;
+      let g = FrequencySpace::new((w(s0 - d), w(s0 + d), res), (w(i0 - d), w(i0 + d), res));
+      let e = sp.efficiencies(g, integ);
+      (mm, e)
+    });
+    match r {
+      Ok((mm, e)) => emit(json!({"kind":"grid","integrator":integ_json(&integ),"mismatch":fx(mm),"res":res,
+        "c":fx(e.coincidences.value_unsafe),"rs":fx(e.signal_singles.value_unsafe),"ri":fx(e.idler_singles.value_unsafe),
+        "symmetric":fx(e.symmetric),"signal":fx(e.signal),"idler":fx(e.idler),"setup":describe(f, &p, &spdc)})),
+      Err(e) => emit(json!({"kind":"grid_panic","panic":e,"setup":describe(f, &p, &spdc)})),
+    }
+  }
+}
+
+/// `c08 probe <config-json> <idler_waist_um> <ws_bits_hex> <wi_bits_hex>`: the three intensities under several integrators
+fn probe(args: &[String]) {
+  let cfg = args[1].clone();
+  let wi_um: f64 = args[2].parse().unwrap();
+  let os = f64::from_bits(u64::from_str_radix(args[3].trim_start_matches("0x"), 16).unwrap());
+  let oi = f64::from_bits(u64::from_str_radix(args[4].trim_start_matches("0x"), 16).unwrap());
+  let mut spdc = SPDC::from_json(cfg).expect("config");
+  spdc.idler.set_waist(wi_um * 1e-6 * M);
+  spdc.assign_optimal_waist_positions();
+  let integs = vec![
+    Integrator::Simpson { divs: 50 }, Integrator::Simpson { divs: 200 }, Integrator::Simpson { divs: 400 }, Integrator::Simpson { divs: 1000 },
+    Integrator::GaussLegendre { degree: 40 }, Integrator::GaussLegendre { degree: 80 }, Integrator::GaussLegendre { degree: 160 },
+  ];
+  for integ in integs {
+    let js = JointSpectrum::new(spdc.clone(), integ);
+    let jsw = JointSpectrum::new(spdc.clone().with_swapped_signal_idler(), integ);
+    let r = triple(&spdc, &js, &jsw, os, oi);
+    // diagnostic variants of the singles integral (see c08_diag.rs): v0 = as in the source, v1 = product of principal roots
+    let sw = spdc.clone().with_swapped_signal_idler();
+    let v = |variant: u8, sp: &SPDC, a: f64, b: f64| -> f64 {
+      let sp = sp.clone();
+      guarded(move || *(c08_diag::singles_variant(variant, w(a), w(b), &sp, integ) / spdcalc::PerMeter3::new(1.))).unwrap_or(f64::NAN)
+    };
+    let (s0, s1, i0, i1) = (v(0, &spdc, os, oi), v(1, &spdc, os, oi), v(0, &sw, oi, os), v(1, &sw, oi, os));
+    let (s3, i3) = (v(3, &spdc, os, oi), v(3, &sw, oi, os));
+    c08_diag::FLIPS.store(0, std::sync::atomic::Ordering::Relaxed);
+    c08_diag::EVALS.store(0, std::sync::atomic::Ordering::Relaxed);
+    let _ = v(2, &sw, oi, os);
+    let (fl, ev) = (c08_diag::FLIPS.load(std::sync::atomic::Ordering::Relaxed), c08_diag::EVALS.load(std::sync::atomic::Ordering::Relaxed));
+    let sp2 = spdc.clone();
+    let pms = guarded(move || *(phasematch_singles_fiber_coupling(w(os), w(oi), &sp2, integ) / spdcalc::PerMeter3::new(1.))).unwrap_or(f64::NAN);
+    match r {
+      Ok((c, ss, si, a)) => emit(json!({"kind":"probe","integrator":integ_json(&integ),"jsi":fx(c),"singles_s":fx(ss),"singles_i":fx(si),"alpha":fx(a),
+        "mismatch":fx(mismatch(&spdc)), "ratio_s": c / ss, "ratio_i": c / si, "jsi_dec": c,
+        "copy_matches_source": pms == s0, "fixed_ratio_s": c / ss * s0 / s1, "fixed_ratio_i": c / si * i0 / i1,
+        "near_ratio_s": c / ss * s0 / s3, "near_ratio_i": c / si * i0 / i3,
+        "sign_flips_idler": fl, "evals_idler": ev})),
+      Err(e) => emit(json!({"kind":"probe_panic","integrator":integ_json(&integ),"panic":e})),
+    }
+  }
+}
+
+fn parse_integ(s: &str) -> Integrator {
+  if let Some(d) = s.strip_prefix("simpson") {
+    Integrator::Simpson { divs: d.parse().unwrap_or(200) }
+  } else if let Some(d) = s.strip_prefix("gl") {
+    Integrator::GaussLegendre { degree: d.parse().unwrap_or(40) }
+  } else {
+    Integrator::Simpson { divs: 200 }
+  }
+}
+
+/// `c08 corpus <file.jsonl>`: replay recorded inputs {id, config, idler_waist_um, ws, wi, integrator, setup}; emits `pw`
+/// records (tag corpus:<id>) and, with every input the generated model reads, `witness` records
+fn corpus(args: &[String]) {
+  let text = std::fs::read_to_string(&args[1]).unwrap_or_default();
+  for line in text.lines() {
+    let e: Value = match serde_json::from_str(line) {
+      Ok(v) => v,
+      Err(_) => continue,
+    };
+    let cfg = e["config"].as_str().unwrap_or("").to_string();
+    let wi_um = e["idler_waist_um"].as_f64().unwrap_or(100.);
+    let hexf = |k: &str| f64::from_bits(u64::from_str_radix(e[k].as_str().unwrap_or("0x0").trim_start_matches("0x"), 16).unwrap_or(0));
+    let (os, oi) = (hexf("ws"), hexf("wi"));
+    let integ = parse_integ(e["integrator"].as_str().unwrap_or("simpson200"));
+    let id = e["id"].as_str().unwrap_or("?").to_string();
+    let r = guarded(move || -> Result<SPDC, String> {
+      let mut s = SPDC::from_json(cfg).map_err(|e| e.to_string())?;
+      s.idler.set_waist(wi_um * 1e-6 * M);
+      s.assign_optimal_waist_positions();
+      Ok(s)
+    });
+    let spdc = match r {
+      Ok(Ok(s)) => s,
+      _ => {
+        emit(json!({"kind":"corpus_fail","id":id}));
+        continue;
+      }
+    };
+    let (a, b) = (spdc.clone(), spdc.clone());
+    let js = match guarded(move || (JointSpectrum::new(a, integ), JointSpectrum::new(b.with_swapped_signal_idler(), integ))) {
+      Ok(v) => v,
+      Err(_) => {
+        emit(json!({"kind":"corpus_fail","id":id}));
+        continue;
+      }
+    };
+    let sp = spdc.clone();
+    let mm = guarded(move || mismatch(&sp)).unwrap_or(f64::NAN);
+    match triple(&spdc, &js.0, &js.1, os, oi) {
+      Ok((c, ss, si, alpha)) => emit(json!({"kind":"pw","diag": diag_ratios(&spdc, os, oi, integ),"tag":format!("corpus:{}", id),"integrator":integ_json(&integ),
+        "ws":fx(os),"wi":fx(oi),"wp":fx(hz(spdc.pump.frequency())),"alpha":fx(alpha),"jsi":fx(c),"singles_s":fx(ss),"singles_i":fx(si),
+        "mismatch":fx(mm),"setup":e["setup"].clone()})),
+      Err(p) => emit(json!({"kind":"pw_panic","tag":format!("corpus:{}", id),"ws":fx(os),"wi":fx(oi),"panic":p,"setup":e["setup"].clone()})),
+    }
+    // everything the generated spectrum functions read, for the swapped (idler-singles) and the direct setup
+    for (which, sp, a, b) in [("direct", spdc.clone(), os, oi), ("swapped", spdc.clone().with_swapped_signal_idler(), oi, os)] {
+      let spc = sp.clone();
+      let r = guarded(move || {
+        let pm = *(phasematch_fiber_coupling(w(a), w(b), &spc, integ) / spdcalc::PerMeter4::new(1.));
+        let pms = *(phasematch_singles_fiber_coupling(w(a), w(b), &spc, integ) / spdcalc::PerMeter3::new(1.));
+        (pm, pms, *spc.signal.refractive_index(w(a), &spc.crystal_setup), *spc.idler.refractive_index(w(b), &spc.crystal_setup),
+         *(spc.signal.theta_external(&spc.crystal_setup) / RAD), *(spc.idler.theta_external(&spc.crystal_setup) / RAD))
+      });
+      if let Ok((pm, pms, ns, ni, ths, thi)) = r {
+        emit(json!({"kind":"witness","id":id,"which":which,"ws":fx(a),"wi":fx(b),"wp":fx(hz(sp.pump.frequency())),
+          "fwhm":fx(sp.pump_bandwidth.value_unsafe),"thr":fx(sp.pump_spectrum_threshold),"len":fx(sp.crystal_setup.length.value_unsafe),
+          "power":fx(sp.pump_average_power.value_unsafe),"deff":fx(sp.deff.value_unsafe),
+          "wpx":fx(sp.pump.waist().x.value_unsafe),"wpy":fx(sp.pump.waist().y.value_unsafe),
+          "wsx":fx(sp.signal.waist().x.value_unsafe),"wsy":fx(sp.signal.waist().y.value_unsafe),
+          "wix":fx(sp.idler.waist().x.value_unsafe),"wiy":fx(sp.idler.waist().y.value_unsafe),
+          "ths":fx(ths),"thi":fx(thi),"ns":fx(ns),"ni":fx(ni),"pp_off": sp.pp == PeriodicPoling::Off,
+          "pm_re":fx(pm.re),"pm_im":fx(pm.im),"pm_singles":fx(pms)}));
+      }
+    }
+  }
+}
+
+pub fn run(args: &[String]) {
+  if args.first().map(|s| s.as_str()) == Some("probe") {
+    probe(args);
+    return;
+  }
+  if args.first().map(|s| s.as_str()) == Some("corpus") {
+    corpus(args);
+    return;
+  }
+  let seed = arg_u64(args, 0, 1);
+  let nsetups = arg_u64(args, 1, 24) as usize;
+  let npts = arg_u64(args, 2, 3) as usize;
+  let nlim = arg_u64(args, 3, 12) as usize;
+  let ngrid = arg_u64(args, 4, 4) as usize;
+  let mut rng = Rng::new(seed);
+  eff_cases(&mut rng, 200);
+  pointwise(&mut rng, nsetups, npts);
+  limit(&mut rng, nlim);
+  grids(&mut rng, ngrid, 4);
 }
